@@ -323,15 +323,44 @@ Proof.
         apply flat_map_repeat_nonnil in Hl. destruct Hl as (x & _ & Hx).
         eapply call_ways_nonempty. exact Hx. }
     split; [exact HA | apply root_of_interp; [reflexivity|exact HA]].
-  - (* EBin *) intros i op l [IHl _] r [IHr _].
+  - (* EBin *) intros i op l [IHl IHRl] r [IHr IHRr].
     assert (HA : A_expr (EBin i op l r)).
-    { intros G li Hnd Hh H Hl. cbn [nids_expr oc_expr] in *. autorewrite with omeq chkeq in *. nd. minv H.
-      unfold op_interps in Hl. apply flat_map_repeat_nonnil in Hl.
-      destruct Hl as (x & _ & Hx).
-      hit_cases Hh.
-      - erewrite IHl; [reflexivity | eassumption ..|]. intro El. apply Hx. subst a. reflexivity.
-      - unch. okrw. erewrite IHr; [reflexivity | eassumption ..|]. intro El. apply Hx. subst a0.
-        cbn [count_fits filter length]. apply Nat.mul_0_r. }
+    { intros G li Hnd Hh H Hl. cbn [nids_expr oc_expr] in *. autorewrite with omeq chkeq in *.
+      change (is_aggregate (om_expr zo r)) with (is_agg (om_expr zo r)).
+      change (is_aggregate (om_expr zo l)) with (is_agg (om_expr zo l)).
+      rewrite !is_agg_om. change (is_agg r) with (is_aggregate r). change (is_agg l) with (is_aggregate l).
+      nd.
+      destruct (is_aggregate r) eqn:Ar.
+      - destruct (is_aggregate l) eqn:Al.
+        + injection H as H. exfalso. apply Hl. symmetry. exact H.
+        + apply bind_ok in H. destruct H as (a & E & K).
+          destruct (agg_type G op a) as [t|] eqn:Et.
+          * apply bind_ok in K. destruct K as (u & Er & _).
+            assert (Ha : a <> []).
+            { intro Ea. subst a. unfold agg_type in Et. cbn [filter dedup] in Et. discriminate Et. }
+            hit_cases Hh.
+            -- erewrite IHl; [reflexivity | eassumption ..].
+            -- unch. rewrite E. cbn [bind]. rewrite Et. erewrite IHRr; [reflexivity | eassumption ..].
+          * injection K as K. exfalso. apply Hl. symmetry. exact K.
+      - destruct (is_aggregate l) eqn:Al.
+        + apply bind_ok in H. destruct H as (a & E & K).
+          destruct (agg_type G op a) as [t|] eqn:Et.
+          * apply bind_ok in K. destruct K as (u & El & _).
+            assert (Ha : a <> []).
+            { intro Ea. subst a. unfold agg_type in Et. cbn [filter dedup] in Et. discriminate Et. }
+            hit_cases Hh.
+            -- (* the aggregate (left operand) is checked after the right operand was interpreted *)
+               assert (Hr : om_expr zo r = r) by (apply om_expr_id; notin).
+               rewrite Hr, E. cbn [bind]. rewrite Et. erewrite IHRl; [reflexivity | eassumption ..].
+            -- erewrite IHr; [reflexivity | eassumption ..].
+          * injection K as K. exfalso. apply Hl. symmetry. exact K.
+        + minv H.
+          unfold op_interps in Hl. apply flat_map_repeat_nonnil in Hl.
+          destruct Hl as (x & _ & Hx).
+          hit_cases Hh.
+          * erewrite IHl; [reflexivity | eassumption ..|]. intro El. apply Hx. subst a. reflexivity.
+          * unch. okrw. erewrite IHr; [reflexivity | eassumption ..|]. intro El. apply Hx. subst a0.
+            cbn [count_fits filter length]. apply Nat.mul_0_r. }
     split; [exact HA | apply root_of_interp; [reflexivity|exact HA]].
   - (* ENot *) intros i e [IHe _].
     assert (HA : A_expr (ENot i e)).
